@@ -2,7 +2,7 @@ package crashcheck
 
 import "verif/harness"
 
-func u(id, v string) harness.Op { return harness.Op{Kind: 'U', ID: id, Ver: v} }
+func u(id, v string) harness.Op  { return harness.Op{Kind: 'U', ID: id, Ver: v} }
 func in(id, v string) harness.Op { return harness.Op{Kind: 'I', ID: id, Ver: v} }
 func d(id string) harness.Op     { return harness.Op{Kind: 'D', ID: id} }
 
@@ -59,11 +59,28 @@ var Scenarios = map[string]Scenario{
 		ClientsFirst: true,
 		Continuation: []B{{u("a", "9")}},
 	},
+	// clients first, unsafe + callbacks: two batches pile up in memory (in-memory merge by the persister),
+	// a third one deletes every document of the first two (the merge introduction may be skipped)
+	"unsafe3del-cf": {
+		Clients:      [][]B{{{in("a", "1")}, {in("b", "1")}, {d("a"), d("b"), in("z", "1")}}},
+		Opts:         harness.Opts{Unsafe: true},
+		Callbacks:    true,
+		Settle:       true,
+		ClientsFirst: true,
+		Continuation: []B{{u("z", "9")}},
+	},
 	// eager merge plan: file merges and clean-ups happen between the batches
 	"merge4": {
 		Clients:      [][]B{{{in("a", "1")}, {in("b", "1")}, {u("a", "2")}, {d("b")}}},
 		Opts:         harness.Opts{EagerMerge: true},
 		Continuation: []B{{in("c", "9")}},
+	},
+	// multi-document segments under eager merging: deletes land on segments with and without earlier
+	// deletions while they are being merged
+	"merge-late": {
+		Clients:      [][]B{{{in("a", "1"), in("b", "1"), in("c", "1")}, {d("a")}, {in("e", "1")}, {d("b")}, {in("f", "1")}}},
+		Opts:         harness.Opts{EagerMerge: true},
+		Continuation: []B{{d("c")}},
 	},
 	// retention of two snapshots
 	"safe3keep2": {
